@@ -244,30 +244,52 @@ structure St where
 def tgtsExpr (s : St) (rels : Rels) : Bool :=
   rels.all fun r => r.target.isZero || decide (r.target ∈ s.issued)
 
-/-- … and for `new` / `add` through `Unsafe` (which does not validate targets before it creates
-    the archetype) only valid ones -/
-def relsExpr (s : St) (p : Path) (rels : Rels) : Bool :=
-  tgtsExpr s rels && (p != Path.unsafe_ || decide (TargetsValid s.ss.ents rels))
+/-- what the machine still asks of the relation arguments of `new` / `add` / `xchg` on path `p`
+    (the part of `RelsWF` that no pre-validation checks): no relation component named twice and
+    every relation component among `ids` named — when the archetype is new or has no active
+    table, `GetTable` answers "no table" before any check and `createTable` notices a violation
+    only after the archetype was created (with an active table the slow path of `GetTable`
+    refuses both without effect, a component named twice since the repair of defect D26; whether
+    a table is active is not a matter of the specification state, so the conjuncts stay) —, and through `Map[T]`, whose pre-validation has no membership
+    check in the model, every relation is on a component among `ids`.  (A relation on a
+    non-relation component, and — through `Unsafe` since its repair, and `MapN` — on a component
+    that is not among `ids`, is refused before anything is touched: such a call is a step.) -/
+def RelsStep (ir : List Bool) (p : Path) (ids : List Comp) (rels : List RelID) : Prop :=
+  (rels.map (·.comp)).Nodup ∧ (p = .map1 → ∀ r ∈ rels, r.comp ∈ ids) ∧
+    ∀ c ∈ ids, ir.getD c false = true → c ∈ rels.map (·.comp)
+
+instance (ir : List Bool) (p : Path) (ids : List Comp) (rels : List RelID) :
+    Decidable (RelsStep ir p ids rels) :=
+  inferInstanceAs (Decidable ((rels.map (·.comp)).Nodup ∧ (p = .map1 → ∀ r ∈ rels, r.comp ∈ ids) ∧
+    ∀ c ∈ ids, ir.getD c false = true → c ∈ rels.map (·.comp)))
+
+/-- a well-formed relation list is one the machine admits, on every path -/
+theorem RelsWF.relsStep {ir : List Bool} {ids : List Comp} {rels : List RelID}
+    (h : RelsWF ir ids rels) (p : Path) : RelsStep ir p ids rels :=
+  ⟨h.1, fun _ r hr => (h.2.1 r hr).1, h.2.2⟩
 
 /-- what is a step of the machine.  Handles are opaque and component IDs are obtained by
     registration, so an operation on a handle that no `new` returned, or adding an unregistered
-    component ID, is not a step.  The relation arguments of `new` / `add` must be well-formed
-    (`RelsWF`): the model creates the archetype before `createTable` notices a relation component
-    named twice (refused with `relTwice` since the repair of defect D18; accepted before), a
-    missing relation or a non-relation component — such a call is refused, but not without
-    effect.  `setrel` has no such restriction: a relation component named twice (refused since
+    component ID, is not a step.  The relation arguments of `new` / `add` must satisfy
+    `RelsStep`: the model creates the archetype before `createTable` notices a relation component
+    named twice (refused with `relTwice` since the repair of defect D18; accepted before) or a
+    missing relation — such a call is refused, but not without effect.  (Before the repair of the
+    `Unsafe` API the whole of `RelsWF` was asked: a relation on a non-relation component or on a
+    component not added was caught by `createTable` too, through `Unsafe`.)  `setrel` has no
+    such restriction: a relation component named twice (refused since
     the repair of defect D19), a component the entity lacks and a dead target are rejected
-    without effect on every path.  A dead target IS a step of `new` / `add` through a typed path
-    (it is rejected without effect); through `Unsafe` it is not (`relsExpr`): the archetype is
-    created before the target is checked. -/
+    without effect on every path.  A dead target IS a step of `new` / `add`, on every path: it
+    is rejected without effect.  (Before the repair of the `Unsafe` API — which now validates its
+    relation arguments like the typed API, `ToCheckedRelationIDsForUnsafe` — a dead target through
+    `Unsafe` was not a step: the archetype was created before the target was checked.) -/
 def guard (s : St) : Op → Bool
   | .reg _ _ _ => true
   | .new p ids _ rels =>
-    (ids.all fun c => decide (c < s.ss.zst.length)) && decide (RelsWF s.ss.isRel ids rels) &&
-      relsExpr s p rels
+    (ids.all fun c => decide (c < s.ss.zst.length)) && decide (RelsStep s.ss.isRel p ids rels) &&
+      tgtsExpr s rels
   | .add p e ids _ rels =>
     decide (e ∈ s.issued) && (ids.all fun c => decide (c < s.ss.zst.length)) &&
-      decide (RelsWF s.ss.isRel ids rels) && relsExpr s p rels
+      decide (RelsStep s.ss.isRel p ids rels) && tgtsExpr s rels
   | .rem _ e _ => decide (e ∈ s.issued)
   | .setrel _ e rels => decide (e ∈ s.issued) && tgtsExpr s rels
   | .set e _ => decide (e ∈ s.issued)
